@@ -55,6 +55,12 @@ register('C07', 'TLA+ Solve spec behaviours (min and max) replayed through stubb
 register('C20', 'TLA+ Solve spec: TLC-enumerated fault schedules replayed with faults injected at the solver entry and in the k-th callback; globals, outcome and next solve checked; trace validation',
          'C20_GlobalsRestored / C20_FaultKeepsCaches are model-checked on Solve.tla; every behaviour containing a fault (route x method x exception class x first entry / retry) is replayed with the fault injected at the seam entry and inside fun / jac / hess / constraint callbacks of the real solver, plus build-stage faults; afterwards the warning hook, the recursion limit, the outcome and the next solve (against a fresh-problem baseline) are checked, and all traces validated.',
          HIST_NOTE, 'DESIGN.md 3 (C20)')
+register('C12', 'TLA+ Solve spec (no artefact snapshots a parameter) model-checked; SetParam histories of its graph replayed and compared at the solver seam with a constant-rebuilt model; trace validation; Api-level callables compiled before set()',
+         'C12_NoFrozenParam and C13_SolveFresh are model-checked on Solve.tla; histories containing SetParam are generated from the model graph, replayed, and every solve is compared at the solver seam (x0, bounds, fun / jac / hess, constraint callables at probe points) and in outcome with a model rebuilt with Constant(current value); TraceSolve validates params_current; value / gradient / Jacobian / Hessian callables compiled before Parameter.set are checked after it on TLC-enumerated programs.',
+         HIST_NOTE, 'DESIGN.md 3 (C12)')
+register('C18', 'TLA+ Solve spec integrality gate model-checked; nc behaviours replayed through stubbed seams with trace validation; relaxed-vs-continuous solves; TLC-enumerated views carry declared domains/bounds',
+         'C18_NoSilentRelax / C18_StrictRaisesFirst are model-checked; every behaviour on a model with non-continuous variables (15 methods x strict x outcomes) is replayed and validated (strict raises before any solver entry; one warning per gate passage naming exactly the non-continuous variables); integer / binary declared through 6 routes x 12 methods relax to the continuous twin; every view enumerated by TLC over binary / integer containers carries [0, 1] / declared bounds.',
+         HIST_NOTE, 'DESIGN.md 3 (C18)')
 
 ALL = ['C%02d' % i for i in range(1, 21)]
 
